@@ -81,6 +81,32 @@ def r_C29(root):
         ini = dict(init)
         for a_ in f_.args.args: ini.setdefault(a_.arg, False)
         inst += run_region(f_.body, ini, E, out, "model_export_to_file." + f_.name)
+    # C29.f  every output file of the exporters is opened as UTF-8 (labels carry any text of the model / grammar; with the locale's
+    #        encoding a non-ASCII label aborts the write half way and leaves an unbalanced file)
+    opens_w = [c for c in ast.walk(t) if isinstance(c, ast.Call) and callee_name(c) == "open" and (any(isinstance(a, ast.Constant) and isinstance(a.value, str) and ("w" in a.value or "a" in a.value) for a in c.args[1:2]) or any(k.arg == "mode" and isinstance(k.value, ast.Constant) and ("w" in str(k.value.value) or "a" in str(k.value.value)) for k in c.keywords))]
+    if not opens_w: raise AnalysisError("export.py: no output file is opened")
+    for c in opens_w:
+        inst += 1
+        enc = next((k.value for k in c.keywords if k.arg == "encoding"), c.args[3] if len(c.args) > 3 else None)
+        enc_v = const_str(enc, t) if enc is not None else None
+        okenc = isinstance(enc_v, str) and enc_v.lower().replace("_", "-") in ("utf-8", "utf8")
+        ob("C29", "C29.f", E, qualname(c), " ".join(ast.unparse(c).split())[:80], okenc)
+        if not okenc: out.append(Finding("C29", "C29.f", E, qualname(c), " ".join(ast.unparse(c).split())[:100], "the output file is opened with %s: a label with a character outside that encoding aborts the export half way and leaves a truncated, unbalanced file" % ("the locale's encoding" if enc is None else "the encoding %s" % ast.unparse(enc))))
+    # C29.g  the PlantUML frame, by evaluation of PlantUmlRenderer (constructor interpreted): @startuml first, @enduml last, whatever is configured
+    xcds_ = {c.name: c for c in t.body if isinstance(c, ast.ClassDef)}
+    if "PlantUmlRenderer" in xcds_:
+        from sa import pyeval as _pg
+        for lt in (None, "ortho", "polyline"):
+            inst += 1
+            envp = {"__classdefs__": xcds_, "__functions__": {f.name: f for f in t.body if isinstance(f, ast.FunctionDef)}, "__module__": t, "__maxdepth__": 20}
+            try:
+                rnd = _pg.instantiate("PlantUmlRenderer", [], {"linetype": lt} if lt else {}, envp)
+                hd = _pg.call_method_of(rnd, *_pg.find_method(xcds_, "PlantUmlRenderer", "get_header"), [], {}, envp); tr = _pg.call_method_of(rnd, *_pg.find_method(xcds_, "PlantUmlRenderer", "get_trailer"), [], {}, envp)
+            except _pg.Raised as r_: hd, tr = "raises " + r_.cls, ""
+            except _pg.Unsupported as u_: raise AnalysisError("PlantUmlRenderer: outside the evaluated subset: %s" % u_)
+            okf = isinstance(hd, str) and isinstance(tr, str) and hd.lstrip().startswith("@startuml") and tr.rstrip().endswith("@enduml") and hd.count("@startuml") == 1 and (("skinparam linetype %s" % lt) in hd if lt else "skinparam linetype" not in hd)
+            ob("C29", "C29.g", E, "PlantUmlRenderer.get_header / get_trailer", "frame with linetype=%r" % lt, okf)
+            if not okf: out.append(Finding("C29", "C29.g", E, "PlantUmlRenderer.get_header", "linetype=%r" % lt, "with linetype=%r the PlantUML output starts with %r and ends with %r; documented: @startuml first, @enduml last, the linetype line in between when configured" % (lt, hd[:40] if isinstance(hd, str) else hd, tr[-20:] if isinstance(tr, str) else tr)))
     # C29.b escape table, by evaluation (sa/pyeval.py) of dot_escape on sample texts: every character that is special inside a
     # record label comes out backslash-escaped exactly once (a newline as \n), other characters unchanged
     from sa import pyeval as _pe
